@@ -1,5 +1,6 @@
 import AC.Props.C11
 open AC.Props.C11
+#print axioms C11_runsChain
 #print axioms C11_runs_ok
 #print axioms C11_refuse
 #print axioms C11_refuse_invalid
